@@ -4,7 +4,8 @@
 //! finished and then grants exactly one of them, which runs up to its next point. So exactly one
 //! shared-memory operation (plus thread-local work) happens per grant, and a schedule (list of thread
 //! ids) replays exactly. Points whose id starts with `spin:` are heads of wait loops: a thread parked
-//! there becomes runnable again only after another thread has been granted.
+//! there becomes runnable again only after another thread has been granted (`spin0:` = loop head: only
+//! blocked on coming back to the same point).
 #![allow(dead_code)]
 
 use std::cell::RefCell;
@@ -21,6 +22,7 @@ enum Status {
 struct State {
     status: Vec<Status>,
     spin_blocked: Vec<bool>,
+    last_point: Vec<&'static str>,
     turn: Option<usize>,
     free_run: bool,
 }
@@ -48,9 +50,13 @@ impl Sched {
             return;
         }
         st.status[t] = Status::Parked(id);
-        if id.starts_with("spin:") {
+        // `spin:`  = parked after a failed wait condition: blocked until another thread moves.
+        // `spin0:` = head of a retry loop (condition not yet evaluated): blocked only when the thread comes
+        //            back to the same point, i.e. after a failed attempt.
+        if id.starts_with("spin:") || (id.starts_with("spin0:") && st.last_point[t] == id) {
             st.spin_blocked[t] = true;
         }
+        st.last_point[t] = id;
         self.cv.notify_all();
         while st.turn != Some(t) && !st.free_run {
             st = self.cv.wait(st).unwrap();
@@ -78,7 +84,7 @@ pub struct RunResult {
 pub fn run(bodies: Vec<Box<dyn FnOnce() + Send + 'static>>, schedule: &[usize]) -> RunResult {
     let n = bodies.len();
     let s = Arc::new(Sched {
-        st: Mutex::new(State { status: vec![Status::Running; n], spin_blocked: vec![false; n], turn: None, free_run: false }),
+        st: Mutex::new(State { status: vec![Status::Running; n], spin_blocked: vec![false; n], last_point: vec![""; n], turn: None, free_run: false }),
         cv: Condvar::new(),
     });
     metrics::verif::set_hook(Some(hook));
